@@ -495,6 +495,24 @@ def run_dag(v, desc, scratch, keys):
                     v.bad(exc_sig(e, "copy-of-original-after-mutation"), f"copying the original after mutating the rewritten pipeline raised {exc_msg(e)}", **w)
 
 
+def elementwise_chain_case(rng):
+    """Directed family: 2-3 element-wise functions over the same axes (identical input and output indices), the shape a
+    NestedPipeFunc can combine the MapSpecs of; one- or two-dimensional, with a second zipped root input."""
+    ax = rng.choice([["i"], ["i", "j"]])
+    sub = ", ".join(ax)
+
+    def fn(name, params, outs):
+        modes = {p: list(ax) for p in params}
+        ms = ", ".join(f"{p}[{sub}]" for p in params) + " -> " + ", ".join(f"{o}[{sub}]" for o in outs)
+        return {"name": name, "params": params, "outs": outs, "mapspec": ms, "modes": modes, "out_axes": list(ax),
+                "internal": [], "internal_shape": [], "ret_list": False, "ishape_via": None}
+    roots = {"x0": {"axes": list(ax), "kind": "ndarray"}, "x1": {"axes": list(ax), "kind": "ndarray"}}
+    funcs = [fn("f0", ["x0"], ["y0"]), fn("f1", ["y0", "x1"], ["y1"])]
+    if rng.random() < 0.6:
+        funcs.append(fn("f2", ["y1", "x0"], ["y2"]))
+    return {"sizes": {a: rng.randint(1, 3) for a in mapgen.AX}, "roots": roots, "funcs": funcs}
+
+
 def bound_downstream_case(rng):
     """Directed family: the scalar root x0 is an ordinary input of f0, while a function downstream of f0 BINDS a parameter
     of the same name (so it depends on x0 only through f0's output); optionally a third function binds nothing."""
@@ -528,6 +546,11 @@ def run_map(v, desc, scratch, keys):
         if i % 4 == 2:
             case = bound_downstream_case(rng)
             v.count("map_cases_binding_a_lifted_name_downstream")
+        nestable = False
+        if i % 4 == 0:
+            case = elementwise_chain_case(rng)   # MapSpecs that a NestedPipeFunc can combine
+            nestable = True
+            v.count("map_cases_with_nestable_chain")
         env, _ = mapgen.oracle(case)
         inputs = mapgen.make_inputs(case)
         ish = mapgen.internal_shapes_arg(case)
@@ -553,6 +576,8 @@ def run_map(v, desc, scratch, keys):
                 cand = [k for k in pool if not (k in ("scope", "axis", "join", "or") and k in ch) and not (k in ("join", "or") and ("join" in ch or "or" in ch))]
                 ch.append(rng.choice(cand))
             chains.append(ch)
+        if nestable:
+            chains += [["nest"], ["nest", "copy"], ["rename", "nest"], ["nest", "pickle"], ["nest", "rename"], ["copy", "nest", "join"]]
         for chain in chains:
             map_chain(v, case, p0, env, inputs, ish, outs, chain, scal, rng, scratch, f"{i}-{'-'.join(chain)}", w0)
             keys.append(f"{mapgen.signature(case)}|map|{'+'.join(chain)}")
@@ -591,6 +616,9 @@ def map_chain(v, case, p0, env, inputs, ish, outs, chain, scal, rng, scratch, ta
                     names["zin"], names[f"zout{step}"] = "zin", f"zout{step}"
                 elif kind == "axis":
                     q.add_mapspec_axis(names[pname], axis="zz")
+                elif kind == "nest":
+                    # the first two functions of the chain become one NestedPipeFunc (their MapSpecs are combined)
+                    q.nest_funcs({names[case["funcs"][0]["outs"][0]], names[case["funcs"][1]["outs"][0]]})
             ish2 = {names[k]: x for k, x in (ish or {}).items()} or None
             inp = {names[k]: x for k, x in inputs.items()}
             if pname:
